@@ -62,15 +62,42 @@ type sim struct {
 	noAuto bool
 	saved  map[int]int
 	gcUniv bool // the universe with referrers (blob 7 is a proper manifest there)
-	entries map[int]bool // observed states only: every blob index.json has an entry for
+	// every blob index.json has an entry for, named or by digest only (a pushed manifest,
+	// anything that was tagged), in memory and as last saved
+	entries      map[int]bool
+	savedEntries map[int]bool
 }
 
-func newSim() *sim { return &sim{blobs: map[int]bool{}, tags: map[int]int{}, saved: map[int]int{}} }
+func newSim() *sim {
+	return &sim{blobs: map[int]bool{}, tags: map[int]int{}, saved: map[int]int{}, entries: map[int]bool{}, savedEntries: map[int]bool{}}
+}
+
+func (s *sim) isManifest(id int) bool {
+	if s.gcUniv {
+		return id >= 4 && id <= 7
+	}
+	return id == 4 || id == 5 || id == 6 || id == 1002
+}
+
+func (s *sim) entryString() string {
+	var xs []string
+	for id := range s.savedEntries {
+		xs = append(xs, strconv.Itoa(id))
+	}
+	sort.Strings(xs)
+	return strings.Join(xs, ",")
+}
 
 func (s *sim) clone() *sim {
 	c := newSim()
 	c.noAuto = s.noAuto
 	c.gcUniv = s.gcUniv
+	for k := range s.entries {
+		c.entries[k] = true
+	}
+	for k := range s.savedEntries {
+		c.savedEntries[k] = true
+	}
 	for k, v := range s.saved {
 		c.saved[k] = v
 	}
@@ -90,6 +117,10 @@ func (s *sim) apply(o ck.Op) {
 		for k, v := range s.tags {
 			s.saved[k] = v
 		}
+		s.savedEntries = map[int]bool{}
+		for k := range s.entries {
+			s.savedEntries[k] = true
+		}
 	}
 }
 
@@ -101,15 +132,20 @@ func (s *sim) applyMem(o ck.Op) {
 	switch o.Kind {
 	case "push":
 		if !(undecodable[o.Blob] && !s.gcUniv) {
+			if !s.blobs[o.Blob] && s.isManifest(o.Blob) {
+				s.entries[o.Blob] = true // a pushed manifest is entered by digest
+			}
 			s.blobs[o.Blob] = true
 		}
 	case "tag":
 		if s.blobs[o.Blob] && !(undecodable[o.Blob] && !s.gcUniv) {
+			s.entries[o.Blob] = true
 			s.tags[o.Ref] = o.Blob
 		}
 	case "untag":
 		delete(s.tags, o.Ref)
 	case "delete":
+		delete(s.entries, o.Blob)
 		if s.blobs[o.Blob] {
 			delete(s.blobs, o.Blob)
 			for r, b := range s.tags {
@@ -725,11 +761,11 @@ func observed(root string, sc *ck.Script) *sim {
 			s.blobs[id] = true
 		}
 	}
-	s.entries = map[int]bool{}
 	if idx, st := ck.ReadRawIndex(root); st == "ok" {
 		for _, m := range idx.Manifests {
 			if id, ok := byHex[m.Digest[strings.IndexByte(m.Digest, ':')+1:]]; ok {
 				s.entries[id] = true
+				s.savedEntries[id] = true
 			}
 			if r, ok := m.Annotations["org.opencontainers.image.ref.name"]; ok && strings.HasPrefix(r, "t") {
 				if v, err := strconv.Atoi(r[1:]); err == nil {
@@ -838,7 +874,7 @@ func gcLive(before *sim) map[int]bool {
 func refCheck(sc *ck.Script, before, after *sim) []failure {
 	var fails []failure
 	add := func(sig, f string, a ...any) { fails = append(fails, failure{sig, fmt.Sprintf(f, a...)}) }
-	if !gcUniverse(sc) || before == nil || before.entries == nil {
+	if !gcUniverse(sc) || before == nil {
 		return nil
 	}
 	o := sc.Final
@@ -1210,6 +1246,20 @@ func oracle(root string, sc *ck.Script, before, after *sim) []failure {
 			} else if fi.Size() != m.Size {
 				add("index-dangling", "index.json entry %s has size %d, the blob %d", m.Digest, m.Size, fi.Size())
 			}
+		}
+	}
+	// the entries of index.json (named and digest-only) are those before or those after; a
+	// cascade or a sweep passes through intermediate sets (C10_crash_safe_composite), a plain
+	// operation does not
+	if status == "ok" && !(sc.Final.Kind == "gc" || (sc.Final.Kind == "delete" && sc.AutoGC)) {
+		cur := newSim()
+		for _, m := range idx.Manifests {
+			if id, ok := byHex[m.Digest[strings.IndexByte(m.Digest, ':')+1:]]; ok {
+				cur.savedEntries[id] = true
+			}
+		}
+		if g := cur.entryString(); g != before.entryString() && g != after.entryString() {
+			add("index-entries-mixed", "index.json has entries for {%s}, neither those before {%s} nor those after {%s}", g, before.entryString(), after.entryString())
 		}
 	}
 	// the directory can be opened again, and the tag mapping is the one before or the one after
